@@ -186,11 +186,100 @@ def build_callgraph(prog):
     return cg, stats
 
 
+_RET_CACHE = {}
+_LOCAL_CACHE = {}
+
+
+def return_classes(prog, func, depth=0):
+    """package classes a function may return an instance of: constructor calls in its return expressions, directly, through a
+    local assigned from a constructor, through conditional expressions, or through another package function (depth 2)"""
+    key = (id(prog), func.qual)
+    if key in _RET_CACHE:
+        return _RET_CACHE[key]
+    _RET_CACHE[key] = []
+    out = []
+
+    def classes_of(e, seen_names=()):
+        if isinstance(e, ast.IfExp):
+            return classes_of(e.body, seen_names) + classes_of(e.orelse, seen_names)
+        if isinstance(e, ast.Call):
+            c = prog.resolve_class(func.module, e.func) if isinstance(e.func, (ast.Name, ast.Attribute)) else None
+            if c is not None:
+                return [c]
+            if isinstance(e.func, ast.Name):
+                # reader_type = ClassA / ClassB ... ; return reader_type(...)
+                via = []
+                for n in walk_body(func.node):
+                    if isinstance(n, ast.Assign) and any(isinstance(t, ast.Name) and t.id == e.func.id for t in n.targets):
+                        for v in ([n.value.body, n.value.orelse] if isinstance(n.value, ast.IfExp) else [n.value]):
+                            k = prog.resolve_class(func.module, v) if isinstance(v, (ast.Name, ast.Attribute)) else None
+                            if k is not None:
+                                via.append(k)
+                if via:
+                    return via
+            if depth < 2:
+                r = None
+                if isinstance(e.func, ast.Attribute) and dotted(e.func.value) in ("self", "cls") and func.cls is not None:
+                    found = prog.lookup(func.cls, e.func.attr)
+                    r = found[2] if found and found[0] == "method" else None
+                elif isinstance(e.func, (ast.Name, ast.Attribute)):
+                    rr = prog.resolve_expr(func.module, e.func)
+                    r = rr[1] if rr and rr[0] == "func" else None
+                if r is not None:
+                    return list(return_classes(prog, r, depth + 1))
+            return []
+        if isinstance(e, ast.Name) and e.id not in seen_names:
+            res = []
+            for n in walk_body(func.node):
+                if isinstance(n, ast.Assign) and any(isinstance(t, ast.Name) and t.id == e.id for t in n.targets):
+                    res += classes_of(n.value, seen_names + (e.id,))
+            return res
+        return []
+    for n in walk_body(func.node):
+        if isinstance(n, ast.Return) and n.value is not None:
+            for c in classes_of(n.value):
+                if c not in out:
+                    out.append(c)
+    _RET_CACHE[key] = out
+    return out
+
+
+def inferred_local_classes(prog, fi):
+    """local name -> classes, from assignments  x = Cls(...)  /  x = f(...)  where f returns instances of package classes"""
+    key = (id(prog), fi.qual)
+    if key in _LOCAL_CACHE:
+        return _LOCAL_CACHE[key]
+    out = {}
+    for n in walk_body(fi.node):
+        if isinstance(n, ast.Assign) and isinstance(n.value, ast.Call) and len(n.targets) == 1 and isinstance(n.targets[0], ast.Name):
+            c = prog.resolve_class(fi.module, n.value.func) if isinstance(n.value.func, (ast.Name, ast.Attribute)) else None
+            cls_ = [c] if c is not None else []
+            if not cls_:
+                f = n.value.func
+                r = None
+                if isinstance(f, ast.Attribute) and dotted(f.value) in ("self", "cls") and fi.cls is not None:
+                    found = prog.lookup(fi.cls, f.attr)
+                    r = found[2] if found and found[0] == "method" else None
+                elif isinstance(f, (ast.Name, ast.Attribute)):
+                    rr = prog.resolve_expr(fi.module, f)
+                    r = rr[1] if rr and rr[0] == "func" else None
+                if r is not None:
+                    cls_ = list(return_classes(prog, r))
+            for k in cls_:
+                if k not in out.setdefault(n.targets[0].id, []):
+                    out[n.targets[0].id].append(k)
+    _LOCAL_CACHE[key] = out
+    return out
+
+
 def _receiver_classes(prog, fi, recv, local_classes):
     if recv is None:
         return []
     if recv in local_classes:
         return local_classes[recv]
+    inferred = inferred_local_classes(prog, fi)
+    if recv in inferred:
+        return inferred[recv]
     for key in ((fi.qual, recv), (fi.module.name, recv), ("*", recv)):
         if key in RECEIVERS:
             if RECEIVERS[key] == EXTERNAL:
